@@ -159,7 +159,8 @@ def replay_target(path, default="h_mu"):
     m = re.search(r"kthr=(\d+)", head)
     if m:
         defs = kdefs(int(m.group(1)))
-    return build(name, extra_defs=defs), env
+    m = re.search(r"flavour=(\S+)", head)
+    return build(name, flavour=m.group(1) if m else "c", extra_defs=defs), env
 
 
 def write_cfg(path, spec="SpecE", consts=None, invariants=(), constraints=(), action_constraints=(), props=(), deadlock=False, extra=""):
